@@ -137,7 +137,7 @@ def run_tagger_case(case):
 def gen_vcf(r, path, long_panel=False):
     contigs = [f'chr{j + 1}' for j in range(r.randint(1, 3))]
     if r.random() < 0.4:
-        contigs.append(r.choice(['chrUn_KI270302v1', 'chr1_KI270706v1_random', 'ERCC-00002']))
+        contigs.append(r.choice(['chrUn_KI270302v1', 'chr1_KI270706v1_random', 'ERCC-00002', 'HLA-A*01:01:01:01', 'HLA-B*07:02', 'HLA-A*01:01:01:01']))
     samples = [f'S{j}' for j in range(r.randint(1, 4))]
     if long_panel:
         # a panel of many strains with descriptive names: the name of the cache file (contig + selected samples) grows past the limit of the
